@@ -635,8 +635,8 @@ type spCase struct {
 }
 
 type spBuildArgs struct {
-	K    int     `json:"k"`
-	G    int     `json:"g"`
+	K     int      `json:"k"`
+	G     int      `json:"g"`
 	Rows  [][]int  `json:"rows"`
 	Types []string `json:"types"` // per key column: "ia" (integer, consecutive values) or "o" (anything else)
 }
